@@ -1592,6 +1592,12 @@ class FT(FuncTranslator):
                 idx.append((ity, iv, lit))
             e, rty = m.gep_expr(sty, base, idx)
             self.emit('%s = %s;' % (res, e))
+            if res is not None:
+                goff = self.gep_const_offset(sty, idx)
+                if goff is not None:
+                    if not hasattr(self, 'gep_origin_by_c'):
+                        self.gep_origin_by_c = {}
+                    self.gep_origin_by_c[res] = (sty, base, goff)
             return
         if op in ('bitcast', 'inttoptr', 'ptrtoint', 'trunc', 'zext', 'sext', 'fptrunc', 'fpext', 'sitofp', 'uitofp',
                   'fptosi', 'fptoui', 'addrspacecast'):
@@ -1961,7 +1967,33 @@ class FT(FuncTranslator):
                         break
         return None
 
-    def zero_leaves(self, ty, lv, off, n, out, depth=0):
+    def gep_const_offset(self, sty, idx):
+        """byte offset of a getelementptr with constant indices (first index 0) into sty, else None"""
+        m = self.m
+        if not idx or any(l is None for (_, _, l) in idx) or idx[0][2] != 0:
+            return None
+        ty, off = sty, 0
+        for (_, _, l) in idx[1:]:
+            if ty.k == 'named':
+                if m.is_union(ty):
+                    return None
+                ty = m.named.get(ty.name)
+                if ty is None:
+                    return None
+            if ty.k == 'lit':
+                if l < 0 or l >= len(ty.fields):
+                    return None
+                off += m.field_offset(ty, l)
+                ty = ty.fields[l]
+            elif ty.k == 'arr':
+                es, _ = m.size_align(ty.elem)
+                off += l * es
+                ty = ty.elem
+            else:
+                return None
+        return off
+
+    def zero_leaves(self, ty, lv, off, n, out, depth=0, lo=0):
         """typed `= 0` stores for every scalar leaf of ty (lvalue lv, at byte offset off) inside [0, n).
         False if a leaf straddles n or the layout is not known (unions, opaque types, huge arrays)."""
         m = self.m
@@ -1972,7 +2004,9 @@ class FT(FuncTranslator):
         k = ty.k
         if k in ('int', 'ptr', 'fp'):
             sz, _ = m.size_align(ty)
-            if off + sz > n:
+            if off + sz <= lo:
+                return True
+            if off + sz > n or off < lo:
                 return False
             out.append('%s = 0;' % lv)
             return True
@@ -1986,7 +2020,7 @@ class FT(FuncTranslator):
             k = ty.k
         if k == 'lit':
             for idx, f in enumerate(ty.fields):
-                if not self.zero_leaves(f, '%s.f%d' % (lv, idx), off + m.field_offset(ty, idx), n, out, depth + 1):
+                if not self.zero_leaves(f, '%s.f%d' % (lv, idx), off + m.field_offset(ty, idx), n, out, depth + 1, lo):
                     return False
             return True
         if k == 'arr':
@@ -1996,7 +2030,9 @@ class FT(FuncTranslator):
             for i in range(ty.n):
                 if off + i * es >= n:
                     break
-                if not self.zero_leaves(ty.elem, '%s.a[%d]' % (lv, i), off + i * es, n, out, depth + 1):
+                if off + (i + 1) * es <= lo:
+                    continue
+                if not self.zero_leaves(ty.elem, '%s.a[%d]' % (lv, i), off + i * es, n, out, depth + 1, lo):
                     return False
             return True
         return False
@@ -2033,12 +2069,28 @@ class FT(FuncTranslator):
             # of 0 keep every field a constant for CBMC; a byte-wise memset of part of a struct does not
             org = self.arg_origins[0] if self.arg_origins else None
             mm = re.fullmatch(r'\(\(uint64_t\)(\d+)ULL\)', a[2] or '')
-            if org is not None and mm and re.fullmatch(r'\(\(uint8_t\)0U\)', a[1] or '') and 0 < int(mm.group(1)) <= 512:
+            # (only when the typed object is at least as large as the filled range: a memset that starts at one field
+            # and runs on over the following fields, e.g. _M_left and _M_right of an _Rb_tree_node_base, must not be
+            # shortened to the first field)
+            if org is not None and mm and re.fullmatch(r'\(\(uint8_t\)0U\)', a[1] or '') and 0 < int(mm.group(1)) <= 512 \
+                    and m.size_align(org[0])[0] >= int(mm.group(1)):
                 stores = []
                 if self.zero_leaves(org[0], '(*%s)' % org[1], 0, int(mm.group(1)), stores) and stores:
                     for st in stores:
                         self.emit(st)
                     return
+            elif org is not None and mm and re.fullmatch(r'\(\(uint8_t\)0U\)', a[1] or '') and 0 < int(mm.group(1)) <= 512 \
+                    and org[1] in getattr(self, 'gep_origin_by_c', {}):
+                # the range starts at a field (constant-index GEP) and runs on over the following fields of the
+                # enclosing object, e.g. memset(&this->_derivation, 0, 25): zero the leaves of that object in the range
+                ety, ebase, eoff = self.gep_origin_by_c[org[1]]
+                n = int(mm.group(1))
+                if m.size_align(ety)[0] >= eoff + n:
+                    stores = []
+                    if self.zero_leaves(ety, '(*%s)' % ebase, 0, eoff + n, stores, lo=eoff) and stores:
+                        for st in stores:
+                            self.emit(st)
+                        return
             self.emit('ll_memset((void *)%s, %s, (uint64_t)%s);' % (a[0], a[1], a[2]))
             return
         mm = re.match(r'llvm\.(s|u)(add|sub|mul)\.with\.overflow\.i(\d+)', name)
